@@ -401,15 +401,15 @@ class RegexCompiler:
 
         if greedy:
             # Try match first, skip as backup
-            # Reset captures first (they should be undefined if we backtrack to skip)
-            self._emit_capture_reset(capture_groups)
-
             if need_zero_width_reset:
                 # Save position to check if body advanced
                 reg = self._allocate_register()
                 self._emit(Op.SET_POS, reg)
 
             split_idx = self._emit(Op.SPLIT_FIRST, 0)
+            # Captures are reset only when the iteration is attempted: skipping it
+            # keeps what earlier iterations of a counted quantifier captured
+            self._emit_capture_reset(capture_groups)
             self._compile_node(body)
 
             if need_zero_width_reset:
@@ -485,49 +485,20 @@ class RegexCompiler:
         # Find capture groups in body to reset at each iteration
         capture_groups = self._find_capture_groups(body)
 
-        if need_advance_check:
-            reg = self._allocate_register()
-            loop_start = self._current_offset()
-
-            self._emit_capture_reset(capture_groups)
-            self._emit(Op.SET_POS, reg)
-            self._compile_node(body)
-            # CHECK_ADVANCE before SPLIT so that if body took a non-advancing path
-            # (like empty alternative), we backtrack to body alternatives first,
-            # not directly to the loop exit
-            self._emit(Op.CHECK_ADVANCE, reg)
-
-            if greedy:
-                split_idx = self._emit(Op.SPLIT_FIRST, 0)
-                self._emit(Op.JUMP, loop_start)
-                self._patch(split_idx, Op.SPLIT_FIRST, self._current_offset())
-            else:
-                split_idx = self._emit(Op.SPLIT_NEXT, 0)
-                self._emit(Op.JUMP, loop_start)
-                self._patch(split_idx, Op.SPLIT_NEXT, self._current_offset())
-        else:
-            loop_start = self._current_offset()
-            self._emit_capture_reset(capture_groups)
-            self._compile_node(body)
-
-            if greedy:
-                split_idx = self._emit(Op.SPLIT_FIRST, 0)
-            else:
-                split_idx = self._emit(Op.SPLIT_NEXT, 0)
-
-            self._emit(Op.JUMP, loop_start)
-
-            if greedy:
-                self._patch(split_idx, Op.SPLIT_FIRST, self._current_offset())
-            else:
-                self._patch(split_idx, Op.SPLIT_NEXT, self._current_offset())
+        # The first iteration is mandatory and may match the empty string; the
+        # remaining ones behave like *
+        self._emit_capture_reset(capture_groups)
+        self._compile_node(body)
+        self._compile_star(body, greedy, need_advance_check)
 
     def _compile_at_least(
         self, body: Node, min_count: int, greedy: bool, need_advance_check: bool
     ):
         """Compile {n,} quantifier."""
-        # Emit body min_count times
+        # Emit body min_count times (captures start afresh in each iteration)
+        capture_groups = self._find_capture_groups(body)
         for _ in range(min_count):
+            self._emit_capture_reset(capture_groups)
             self._compile_node(body)
 
         # Then emit * for the rest
@@ -542,8 +513,10 @@ class RegexCompiler:
         need_advance_check: bool,
     ):
         """Compile {n,m} quantifier."""
-        # Emit body min_count times (required)
+        # Emit body min_count times (required; captures start afresh in each iteration)
+        capture_groups = self._find_capture_groups(body)
         for _ in range(min_count):
+            self._emit_capture_reset(capture_groups)
             self._compile_node(body)
 
         # Emit body (max_count - min_count) times (optional)
